@@ -4,7 +4,7 @@
 set -u
 V="$(cd "$(dirname "$0")/.." && pwd)"
 R="$1"; OUT="$2"; shift 2
-mkdir -p "$V/.build"; cd "$V"; export VERIF_REPO="$R"; : > "$OUT"
+mkdir -p "$V/.build"; cd "$V"; export VERIF_REPO="$R" VERIF_EVIDENCE_DIR="$V/.work/evidence-scratch"; : > "$OUT"
 for pc in "$@"; do
   p="${pc%%:*}"; prop="${pc##*:}"
   if ! git -C "$R" apply --check "$p" 2>/dev/null; then echo -e "$p\t$prop\tdoes-not-apply" >> "$OUT"; continue; fi
